@@ -448,6 +448,7 @@ type pReqInfo struct {
 	err      error
 	res      eni.NetworkResources
 	finished bool
+	doneAt   int64               // UnixNano at which Manager.Allocate returned (atomic)
 	keep     *eni.LocalIPRequest // keeps the request's address from being reused while the case runs
 }
 
